@@ -100,14 +100,26 @@ def write_xyz(m):
 
 
 def write_extxyz(m):
+    """frames: lattice, energy, charge, atoms (sym, x, y, z, mass, fx, fy, fz[, q, tag]); with m['custom'] two user-defined
+    per-atom columns (q: real, tag: integer) follow the predefined ones."""
     out = []
+    custom = m.get("custom", False)
+    header = None
     for fr in m["frames"]:
         out.append(f"{len(fr['atoms'])}")
-        lat = " ".join(f"{v:.8f}" for row in fr["lattice"] for v in row)
-        out.append(f'Lattice="{lat}" Properties=species:S:1:pos:R:3:masses:R:1:force:R:3 energy={fr["energy"]:.8f} '
-                   f'charge={fr["charge"]:.4f} pbc="T T F" tag=run7')
-        for sym, x, y, z, mass, fx, fy, fz in fr["atoms"]:
-            out.append(f"{sym} {x:15.8f} {y:15.8f} {z:15.8f} {mass:12.6f} {fx:14.8f} {fy:14.8f} {fz:14.8f}")
+        if header is None or not custom:
+            lat = " ".join(f"{v:.8f}" for row in fr["lattice"] for v in row)
+            props = "species:S:1:pos:R:3:masses:R:1:force:R:3" + (":q:R:1:site:I:1" if custom else "")
+            header = (f'Lattice="{lat}" Properties={props} energy={fr["energy"]:.8f} '
+                      f'charge={fr["charge"]:.4f} pbc="T T F" tag=run7')
+        # with the user-defined columns all frames carry the very same comment line (same cell, energy and charge)
+        out.append(header)
+        for a in fr["atoms"]:
+            sym, x, y, z, mass, fx, fy, fz = a[:8]
+            line = f"{sym} {x:15.8f} {y:15.8f} {z:15.8f} {mass:12.6f} {fx:14.8f} {fy:14.8f} {fz:14.8f}"
+            if custom:
+                line += f" {a[8]:12.6f} {a[9]:6d}"
+            out.append(line)
     return "\n".join(out) + "\n"
 
 
